@@ -21,7 +21,7 @@ from __future__ import annotations
 import ast
 import re
 
-from ..flow import Defs, Scope, iterations, merge_winner
+from ..flow import Defs, Scope, all_merges, iterations
 from ..loader import AnalysisError, FuncInfo, dotted, norm, walk_no_nested
 from ..report import Ctx
 from ..selftest import Mutant
@@ -55,10 +55,18 @@ class Alias:
     def __init__(self, fn: FuncInfo, tracked_params: set[str]) -> None:
         self.fn = fn
         self.env: dict[str, set[str]] = {}
+        self.holds: dict[tuple[str, object], set[str]] = {}  # (local container, constant key or None) -> aliases stored there
         for p in tracked_params:
             self.env[p] = {f"OBJ:{p}"}
         for _ in range(3):
             for n in walk_no_nested(fn.node):
+                if isinstance(n, ast.Assign):
+                    for t in n.targets:
+                        if isinstance(t, ast.Subscript) and isinstance(t.value, ast.Name):
+                            al = {v for v in self.val(n.value) if ":" in v}
+                            if al:
+                                key = t.slice.value if isinstance(t.slice, ast.Constant) else None
+                                self.holds.setdefault((t.value.id, key), set()).update(al)
                 if isinstance(n, ast.Assign) and len(n.targets) == 1 and isinstance(n.targets[0], ast.Name):
                     self.env.setdefault(n.targets[0].id, set()).update(self.val(n.value))
                 elif isinstance(n, ast.AnnAssign) and isinstance(n.target, ast.Name) and n.value is not None:
@@ -76,6 +84,11 @@ class Alias:
         if isinstance(e, (ast.Attribute, ast.Subscript)):
             base = self.val(e.value)
             out = {f"FIELD:{v.partition(':')[2]}" for v in base if v.partition(":")[0] in ("OBJ", "FIELD", "SHALLOW")}
+            if isinstance(e, ast.Subscript) and isinstance(e.value, ast.Name):  # what a local container holds under this key
+                key = e.slice.value if isinstance(e.slice, ast.Constant) else None
+                for (name, k), al in self.holds.items():
+                    if name == e.value.id and (k == key or k is None or key is None):
+                        out |= {f"FIELD:{v.partition(':')[2]}" for v in al if v.partition(":")[0] in ("OBJ", "FIELD")}
             return out or {"FRESH"}
         if isinstance(e, ast.Call):
             name = dotted(e.func)
@@ -430,8 +443,17 @@ def rule_rest(ctx: Ctx) -> None:  # noqa: C901, PLR0915
     # ---- 7 defaults
     wd = P.func(f"{MOD}.Resources.with_defaults")
     dparam = [p for p in wd.param_names() if p != "self"][0]
-    w = merge_winner(wd.node, dparam, "self")
-    ctx.tri("7-defaults", wd, wd.node, w == "b", w == "a", "the receiver's quantities win over the defaults", "with_defaults lets the DEFAULTS override what the receiver has set", "merge form not recognised", key="order")
+    verdicts = []
+    for node, ops in all_merges(wd.node):
+        sides = []
+        for o in ops:
+            t = ast.unparse(o)
+            sides.append("default" if dparam in t and "self" not in t else ("self" if "self" in t and dparam not in t else "?"))
+        if "default" in sides and "self" in sides:
+            verdicts.append((sides.index("default") < len(sides) - 1 - sides[::-1].index("self"), node))
+    wrong = [n_ for ok_, n_ in verdicts if not ok_]
+    ctx.tri("7-defaults", wd, wrong[0] if wrong else wd.node, bool(verdicts) and not wrong, bool(wrong), "in every merge of with_defaults the receiver's entries win over the defaults",
+            f"`{norm(wrong[0])[:70] if wrong else ''}` lets the DEFAULTS override what the receiver has set", "merge form not recognised", key="order")
     for q in (f"{MOD}.Resources.maybe_with_defaults", f"{MOD}._delayed_resources_with_defaults"):
         f = P.func(q)
         cs = [c for c in ast.walk(f.node) if isinstance(c, ast.Call) and isinstance(c.func, ast.Attribute) and c.func.attr == "with_defaults" and c.args]
@@ -481,6 +503,10 @@ MUTANTS = [
     Mutant("dict-truthiness-filter", F, "return {k: v for k, v in asdict(self).items() if v is not None}", "return {k: v for k, v in asdict(self).items() if v}", ("C20.6-roundtrip",), why="seeded C20/3"),
     Mutant("defaults-win", F, "return Resources(**dict(default_resources.dict(), **self.dict()))", "return Resources(**dict(self.dict(), **default_resources.dict()))", ("C20.7-defaults",)),
     Mutant("defaults-win-update-form", F, "        return Resources(**dict(default_resources.dict(), **self.dict()))\n", "        merged = self.dict()\n        merged.update(default_resources.dict())\n        return Resources(**merged)\n", ("C20.7-defaults",)),
+    Mutant("combine-max-adopts-operand-dict", F, '                if key not in max_data["extra_args"]:\n                    max_data["extra_args"][key] = value\n',
+           '                if not max_data["extra_args"]:\n                    max_data["extra_args"] = resources.extra_args\n                max_data["extra_args"].setdefault(key, value)\n', ("C20.1-pure",), why="round-2 seed C20/4"),
+    Mutant("defaults-win-extra-args", F, "        return Resources(**dict(default_resources.dict(), **self.dict()))\n",
+           '        data = dict(default_resources.dict(), **self.dict())\n        data["extra_args"] = {**self.extra_args, **default_resources.extra_args}\n        return Resources(**data)\n', ("C20.7-defaults",), why="round-2 seed C20/6"),
     Mutant("units-table-swapped", F, '"TB": 1e3, "PB": 1e6', '"TB": 1e6, "PB": 1e3', ("C20.5-validated",)),
     Mutant("twin-update-dict-union", F, '                data["extra_args"] = {**data["extra_args"], key: value}\n', '                data["extra_args"] = data["extra_args"] | {key: value}\n', twin=True),
     Mutant("twin-defaults-update-form", F, "        return Resources(**dict(default_resources.dict(), **self.dict()))\n", "        merged = default_resources.dict()\n        merged.update(self.dict())\n        return Resources(**merged)\n", twin=True),
